@@ -136,27 +136,34 @@ def expected_row(text):
 # ---------------------------------------------------------------- generator ---
 def gen_key(rng, depth=0):
     r = rng.random()
-    if r < 0.45:
+    if r < 0.4:
         return rng.choice(LIT_KEYS)
     if r < 0.75:
-        return rng.choice(RE_KEYS)
+        return rng.choice(RE_KEYS[:5]) if rng.random() < 0.6 else rng.choice(RE_KEYS)
     n = rng.choice([0, 1, 2, 2, 3])
     return [gen_key(rng, depth + 1) if depth < 2 else rng.choice(LIT_KEYS + RE_KEYS) for _ in range(n)]
 
 
-def gen_pattern(rng):
+BROAD = ["{l}/**", "l10n/{locale}/**", "l10n/*/**", "{l}/a/**", "l10n/de/**", "l10n/{locale}/**/b.ftl",
+         "l10n/*/a/*", "{l}/c/*"]
+
+
+def gen_pattern(rng, broad=0.35):
     if POOL["literal"] and rng.random() < 0.5:
         return rng.choice(LITERAL)
-    return rng.choice(COMMON) if rng.random() < 0.7 else rng.choice(NONLITERAL)
+    r = rng.random()
+    if r < broad:
+        return rng.choice(BROAD)
+    return rng.choice(COMMON) if r < 0.8 else rng.choice(NONLITERAL)
 
 
 def gen_rule(rng, file_action=None):
     r = rng.random()
     if r < 0.7:
-        path = gen_pattern(rng)
+        path = gen_pattern(rng, 0.5)
     else:
-        path = [gen_pattern(rng) for _ in range(rng.choice([0, 1, 2, 2, 3]))]
-    rule = {"path": path, "action": rng.choice(ACTIONS)}
+        path = [gen_pattern(rng, 0.5) for _ in range(rng.choice([0, 1, 2, 2, 3]))]
+    rule = {"path": path, "action": rng.choice(["error", "warning", "warning", "ignore", "ignore"])}
     if rng.random() < 0.6:
         rule["key"] = gen_key(rng)
     elif file_action is not None:
@@ -164,27 +171,29 @@ def gen_rule(rng, file_action=None):
     return rule
 
 
-def gen_locales(rng):
+def gen_locales(rng, wide=False):
     r = rng.random()
+    if wide and r < 0.7:
+        return rng.choice([["de", "fr"], ["fr", "de", "it"], ["de", "fr", "it"]])
     if r < 0.1:
         return []
     k = rng.choice([1, 2, 2, 3])
     return rng.sample(CONF_LOCS, k)
 
 
-def gen_config(rng, depth=0, excludes=True, file_action=None, p_loc=0.7):
-    c = {"locales": gen_locales(rng) if rng.random() < p_loc else None,
+def gen_config(rng, depth=0, excludes=True, file_action=None, p_loc=0.85):
+    c = {"locales": gen_locales(rng, depth == 0) if rng.random() < p_loc else None,
          "paths": [], "rules": [], "children": [], "excludes": []}
-    for _ in range(rng.choice([0, 1, 1, 2, 2])):
-        c["paths"].append({"l10n": gen_pattern(rng),
-                           "locales": gen_locales(rng) if rng.random() < 0.3 else None})
-    for _ in range(rng.choice([0, 1, 2, 3, 4])):
+    for _ in range(rng.choice([0, 1, 1, 2, 2] if depth else [1, 1, 2, 2, 0])):
+        c["paths"].append({"l10n": gen_pattern(rng, 0.85 if depth == 0 else 0.4),
+                           "locales": gen_locales(rng) if rng.random() < 0.25 else None})
+    for _ in range(rng.choice([0, 1, 2, 3, 4, 5] if depth == 0 else [0, 1, 2, 3])):
         c["rules"].append(gen_rule(rng, file_action))
     if depth < 2:
-        for _ in range(rng.choice([0, 0, 1, 1, 2] if depth == 0 else [0, 0, 0, 1])):
+        for _ in range(rng.choice([0, 0, 0, 1, 1, 2] if depth == 0 else [0, 0, 0, 1])):
             c["children"].append(gen_config(rng, depth + 1, False, file_action, 0.4))
     if excludes and depth == 0:
-        for _ in range(rng.choice([0, 0, 0, 1, 1, 2])):
+        for _ in range(rng.choice([0, 0, 0, 0, 1, 1, 2])):
             c["excludes"].append(gen_config(rng, 1, False, "error", 0.9))
     return c
 
@@ -429,7 +438,7 @@ def gen_queries(rng, n):
     qs = []
     for fi, f in enumerate(FILES):
         own = LOCS.index(f[0]) if f[0] is not None else rng.randrange(3)
-        for li in {own, rng.randrange(len(LOCS))}:
+        for li in {own, rng.choice([0, 0, 1, 1, 2, 2, 3, 4]) if rng.random() < 0.3 else own}:
             for key in rng.sample(KEYS, 4) + [None]:
                 qs.append((0, li, fi, key))
     rng.shuffle(qs)
@@ -526,21 +535,37 @@ def run_filter_stream(chk, model, name, descs, nq, oracle_on=True, finding_strea
 # ---------------------------------------------------------------------- stale ---
 def gen_stale(rng, desc):
     nodes = [p for p, _ in walk_nodes(desc)]
-    ops = gen_queries(rng, 25)
+    ops = gen_queries(rng, 15)
     for _ in range(rng.choice([1, 2, 3])):
-        p = rng.choice(nodes)
+        last = [o for o in ops if o[0] == 0][-1]
+        p = rng.choice(nodes) if rng.random() < 0.5 else ()
         k = rng.random()
-        if k < 0.5:
-            ops.append((1, p, [gen_rule(rng, "error" if any(e for e, _ in p) else None)
-                               for _ in range(rng.choice([1, 2]))]))
+        in_exclude = any(e for e, _ in p)
+        if k < 0.6:
+            rules = []
+            for _ in range(rng.choice([1, 2])):
+                r = gen_rule(rng, "error" if in_exclude else None)
+                if rng.random() < 0.6:
+                    r["path"] = rng.choice(["l10n/*/**", "{l}/**", "l10n/{locale}/a/**"])
+                rules.append(r)
+            ops.append((1, p, rules))
         elif k < 0.8:
             ops.append((2, p, gen_locales(rng)))
         else:
-            ops.append((3, p, [{"l10n": gen_pattern(rng), "locales": None}]))
-        # re-ask some of the earlier queries first (same locales: stale slots), then others
-        again = [o for o in ops if o[0] == 0]
-        ops += rng.sample(again, min(len(again), 12)) + gen_queries(rng, 10)
+            ops.append((3, p, [{"l10n": rng.choice(["l10n/*/**", gen_pattern(rng)]), "locales": None}]))
+        # first the locale of the last query (the slot every node still holds), other files
+        # and keys; then other locales and back
+        same = [(0, last[1], fi, key) for fi in rng.sample(range(len(FILES)), 5)
+                for key in rng.sample(KEYS, 2)]
+        ops += same + gen_queries(rng, 8) + rng.sample(same, 3)
     return ops
+
+
+STALE_WITNESS = (
+    {"locales": ["de", "fr"], "paths": [{"l10n": "l10n/{locale}/**", "locales": None}], "rules": [],
+     "children": [], "excludes": []},
+    [(0, 0, 0, None), (1, (), [{"path": "l10n/{locale}/**", "action": "ignore"}]),
+     (0, 0, 0, None), (0, 1, 0, None), (0, 0, 0, None)])
 
 
 # -------------------------------------------------------------------- compile ---
@@ -813,10 +838,15 @@ def run(chk, runner_ok):
     # ---- stale caches -----------------------------------------------------
     cases, impl, reqs = [], [], []
     stale_seen = 0
-    for _ in range(chk.n(60, 500)):
-        d = gen_config(rng)
-        ops = gen_stale(rng, d)
+    for i in range(chk.n(60, 500)):
+        if i == 0:
+            d, ops = copy.deepcopy(STALE_WITNESS[0]), list(STALE_WITNESS[1])
+        else:
+            d = gen_config(rng)
+            ops = gen_stale(rng, d)
         out = impl_session(d, ops)
+        if i == 0 and out != ok([s2l(v) for v in ("error", "error", "ignore", "ignore")]):
+            chk.fail("stale-witness", {"config": d, "ops": ops}, {"got": out})
         cases.append({"config": d, "ops": ops})
         impl.append(out)
         for o in ops:
